@@ -2080,6 +2080,18 @@ inline void VxFree(void* p) {
 }
 }  // namespace
 
+// Exception objects come from __cxa_allocate_exception (malloc), not from operator new; the address of a freed one is
+// reused by the next, so the happens-before shadow of that memory must be forgotten like that of a new block
+// (linked with -Wl,--wrap=__cxa_allocate_exception).
+extern "C" void* __real___cxa_allocate_exception(std::size_t n) noexcept;
+extern "C" void* __wrap___cxa_allocate_exception(std::size_t n) noexcept {
+  void* p = __real___cxa_allocate_exception(n);
+  if (p != nullptr) {
+    vx::hb::OnRawAlloc(p, n);
+  }
+  return p;
+}
+
 void* operator new(std::size_t n) {
   void* p = VxAlloc(n, 0);
   if (p == nullptr) {
